@@ -592,6 +592,58 @@ def hole_rule(ctx):
     return obs
 
 
+def wave7_rules(ctx):
+    """obligations added after the seventh wave of seeded changes"""
+    import guards as G
+    ob = ctx.ob
+    tc = ctx.tc
+    obs = []
+    # (1) inside the path module a path array is printed in the mode in which it was found legal: the guard's mode argument and
+    #     the printer's mode argument are the same expression
+    n_sites = 0
+    for f in tc.fns:
+        if not f.body or f.module[:2] != ["proc_gen", "expr"]:
+            continue
+        gs = None
+        for x in sir.walk(f.body):
+            if x.get("k") == "mcall" and x["m"] == "to_lvalue_path_arr" and len(x["args"]) == 3:
+                n_sites += 1
+                gs = gs or G.guards_of(f.body)
+                recv = sir.expr_str(x["recv"])
+                mode = sir.expr_str(x["args"][2])
+                asked = []
+                for kind, subj, pol in gs.get(id(x), []):
+                    if kind == "cond" and pol:
+                        for y in sir.walk(subj):
+                            if y.get("k") == "mcall" and y["m"] == "is_legal_lvalue_path" and len(y["args"]) == 2 and sir.expr_str(y["recv"]) == recv:
+                                asked.append(sir.expr_str(y["args"][1]))
+                if not asked:
+                    continue    # guarded by the caller (C11.guard)
+                ok = mode in asked
+                obs.append(ob("C11.guard/internal/%s" % f.qual.split("::")[-1], ok, ctx.where(f), "`%s` is found legal in mode %s and printed in mode `%s`" % (recv, asked, mode),
+                              witness=None if ok else "model:v=\"{{ c ? a.b : m.x }}\" prints `[]` for the script branch instead of `null`"))
+    # (2) the module path recorded for a <wxs src> scope is the path the module is loaded from
+    tp = [f for f in tc.fns if f.base == "Template" and f.name == "to_proc_gen" and f.body]
+    if tp:
+        f = tp[0]
+        stored = [fl["e"] for n in sir.walk(f.body) if n.get("k") == "struct" and n["segs"][-1] == "Script" and "ScopeVarLvaluePath" in n["path"] for fl in n["fields"] if fl["name"] == "abs_path"]
+        loaded = []
+        for n in sir.walk(f.body):
+            wfc = sir.write_fmt_call(n)
+            if wfc:
+                text = "".join(p_[1] if p_[0] == "lit" else "{}" for p_ in wfc[1])
+                if re.search(r"=R\[\{\}\]\(\)", text):
+                    loaded += [sir.expr_str(sir.strip_ref(a)) for p_ in wfc[1] if p_[0] == "hole" and isinstance(p_[1], dict) and p_[1].get("k") == "call" and sir.call_name(p_[1]) == "gen_lit_str" for a in p_[1]["args"]]
+        if stored and loaded:
+            names = [sir.expr_str(sir.strip_ref(e_)) for e_ in stored]
+            ok = all(nm in loaded for nm in names)
+            obs.append(ob("C11.prefix/script-path-origin", ok, ctx.where(f), "a script scope records the path `%s`; the module is loaded from `R[%s]`" % (names, loaded),
+                          witness=None if ok else "a template in a sub-directory with a relative <wxs src>: paths name a different module than the one that is read"))
+        else:
+            obs.append(ob("C11.prefix/script-path-origin", None, ctx.where(f), "script prologue not in a form this rule reads"))
+    return obs
+
+
 def run(ctx):
     r = agree_rule(ctx)
     if isinstance(r, tuple):
@@ -600,6 +652,7 @@ def run(ctx):
     else:
         obs = r
     obs += guard_rule(ctx)
+    obs += wave7_rules(ctx)
     obs += ternary_rule(ctx)
     obs += never_rule(ctx)
     from rules.c07 import emit_rule
